@@ -756,7 +756,18 @@ where
 {
     let file = log::open(utils::hintfile_name(&path, fileid))?;
     let mut hintfile_iter = LogIterator::new(file)?;
+    // A hint entry that points past the end of its data file is left over from a crash in which
+    // the data file lost its tail. Such a hint file can't be trusted, so we report it as missing
+    // and let the caller scan the data file instead.
+    let datafile_len = fs::metadata(utils::datafile_name(&path, fileid))?.len();
+    let mut entries = Vec::new();
     while let Some((_, entry)) = hintfile_iter.next::<HintFileEntry>()? {
+        match entry.pos.checked_add(entry.len) {
+            Some(end) if end <= datafile_len => entries.push(entry),
+            _ => return Err(io::Error::from(io::ErrorKind::NotFound).into()),
+        }
+    }
+    for entry in entries {
         let keydir_entry = KeyDirEntry {
             fileid,
             len: entry.len,
